@@ -66,3 +66,9 @@ package sorting
 //@ func ByDate$1 at "dateparse.ParseFormat(a)"
 //@   pure
 //@   assert at "return d" : $ret == t_before(d0, d1)
+
+// sorting a slice through SortBy touches only that slice's elements
+//@ func SortBy
+//@   modifies arr[..]
+//@   noinline
+//@   trusted
